@@ -115,10 +115,11 @@ def run_codec(ctx):
 
 
 def idless_pending(ev):
-    """site of the listed finding IDLESS-ENTRY-STAYS-PENDING: the live pending set holds an entry that has no id on either side"""
+    """site of the listed finding STALE-ENTRY-STAYS-PENDING: the live pending set holds an entry that has, on neither side, a
+    change flag together with an id (it lost its ids and/or flags when another entry took over its path)"""
     st = ev.get("st") or {}
     ents = {e["id"]: e for e in st.get("ents", [])}
-    return any(i in ents and ents[i]["s"][0][0] == 0 and ents[i]["s"][1][0] == 0 for i in st.get("pend", []))
+    return any(i in ents and not any(sd[0] != 0 and sd[6] == 1 for sd in ents[i]["s"]) for i in st.get("pend", []))
 
 
 def xsig(case, trace, line):
